@@ -252,7 +252,127 @@ fn scripted_value_history(ctx: &mut Ctx) {
     }
 }
 
+// ---------------------------------------------------------------------------------------------
+// "Add a field referencing a built-in scalar" at EVERY place the schema API lets one add it while staying valid:
+// object fields, field arguments, input-object fields, directive-definition arguments, and interface fields
+// together with all implementers (objects and interfaces, transitively) — plain, non-null and list wrappings.
+fn wrap_ty(b: &str, w: usize) -> apollo_compiler::ast::Type {
+    use apollo_compiler::ast::Type as T;
+    let n = apollo_compiler::Name::new(b).unwrap();
+    match w { 0 => T::Named(n), 1 => T::NonNullNamed(n), 2 => T::Named(n).list(), _ => T::NonNullNamed(n).list().non_null() }
+}
+
+fn place_history(ctx: &mut Ctx, schema_src: &str, steps: usize) {
+    use apollo_compiler::schema::{Component, FieldDefinition, InputValueDefinition};
+    use apollo_compiler::{Name, Node};
+    let Ok(parsed) = Schema::parse(schema_src, "s.graphql") else { ctx.stat("generated_schema_build_error"); return };
+    let Ok(valid) = parsed.validate() else { ctx.stat("generated_schema_invalid"); return };
+    let mut cur = valid.into_inner();
+    let mut log: Vec<String> = vec![];
+    for step in 0..steps {
+        let b = *ctx.rng.pick(&BUILTINS);
+        let w = ctx.rng.below(4);
+        let before: std::collections::HashSet<String> = keys(&cur).into_iter().collect();
+        let fname = Name::new(&format!("x{step}")).unwrap();
+        let fdef = |ty| FieldDefinition { description: None, name: fname.clone(), arguments: vec![], ty, directives: Default::default() };
+        let ivd = |nullable_ty| Node::new(InputValueDefinition { description: None, name: fname.clone(), ty: Node::new(nullable_ty), default_value: None, directives: Default::default() });
+        let ifaces: Vec<Name> = cur.types.iter().filter(|(_, t)| matches!(t, ExtendedType::Interface(_))).map(|(n, _)| n.clone()).collect();
+        let objects: Vec<Name> = cur.types.iter().filter(|(n, t)| matches!(t, ExtendedType::Object(_)) && !n.starts_with("__")).map(|(n, _)| n.clone()).collect();
+        let inputs: Vec<Name> = cur.types.iter().filter(|(_, t)| matches!(t, ExtendedType::InputObject(_))).map(|(n, _)| n.clone()).collect();
+        let place = ctx.rng.below(5);
+        match place {
+            0 if !ifaces.is_empty() => {
+                // the interface and everything that (transitively) implements it
+                let target = ctx.rng.pick(&ifaces).clone();
+                let mut set = vec![target.clone()];
+                loop {
+                    let mut grew = false;
+                    for (n, t) in cur.types.iter() {
+                        let imps: Vec<&Name> = match t { ExtendedType::Object(o) => o.implements_interfaces.iter().map(|c| &c.name).collect(), ExtendedType::Interface(i) => i.implements_interfaces.iter().map(|c| &c.name).collect(), _ => vec![] };
+                        if !set.contains(n) && imps.iter().any(|i| set.contains(i)) { set.push(n.clone()); grew = true; }
+                    }
+                    if !grew { break; }
+                }
+                for n in &set {
+                    match cur.types.get_mut(n) {
+                        Some(ExtendedType::Object(o)) => { o.make_mut().fields.insert(fname.clone(), Component::new(fdef(wrap_ty(b, w)))); }
+                        Some(ExtendedType::Interface(i)) => { i.make_mut().fields.insert(fname.clone(), Component::new(fdef(wrap_ty(b, w)))); }
+                        _ => {}
+                    }
+                }
+                log.push(format!("add {fname}: {} to interface {target} and its {} implementers", wrap_ty(b, w), set.len() - 1));
+            }
+            1 if !inputs.is_empty() => {
+                let target = ctx.rng.pick(&inputs).clone();
+                let ty = wrap_ty(b, if w % 2 == 1 { w - 1 } else { w });
+                if let Some(ExtendedType::InputObject(i)) = cur.types.get_mut(&target) { i.make_mut().fields.insert(fname.clone(), Component::from(ivd(ty.clone()))); }
+                log.push(format!("add input field {target}.{fname}: {ty}"));
+            }
+            2 if !cur.directive_definitions.is_empty() => {
+                let names: Vec<Name> = cur.directive_definitions.keys().filter(|n| !["skip", "include", "deprecated", "specifiedBy"].contains(&n.as_str())).cloned().collect();
+                if names.is_empty() { continue; }
+                let target = ctx.rng.pick(&names).clone();
+                let ty = wrap_ty(b, if w % 2 == 1 { w - 1 } else { w });
+                if let Some(d) = cur.directive_definitions.get_mut(&target) { d.make_mut().arguments.push(ivd(ty.clone())); }
+                log.push(format!("add argument @{target}({fname}: {ty})"));
+            }
+            3 => {
+                // a nullable argument on a field that no interface declares
+                let ty = wrap_ty(b, if w % 2 == 1 { w - 1 } else { w });
+                let Some(ExtendedType::Object(q)) = cur.types.get_mut("Query") else { return };
+                let q = q.make_mut();
+                let own = Name::new(&format!("own{step}")).unwrap();
+                let mut f = FieldDefinition { description: None, name: own.clone(), arguments: vec![], ty: wrap_ty("String", 0), directives: Default::default() };
+                f.arguments.push(ivd(ty.clone()));
+                q.fields.insert(own.clone(), Component::new(f));
+                log.push(format!("add Query.{own}({fname}: {ty}): String"));
+            }
+            _ => {
+                if objects.is_empty() { continue; }
+                let target = ctx.rng.pick(&objects).clone();
+                if let Some(ExtendedType::Object(o)) = cur.types.get_mut(&target) { o.make_mut().fields.insert(fname.clone(), Component::new(fdef(wrap_ty(b, w)))); }
+                log.push(format!("add {target}.{fname}: {}", wrap_ty(b, w)));
+            }
+        }
+        let desc = format!("{schema_src} ## history: validate; into_inner; {}; validate", log.join("; validate; into_inner; "));
+        let exported = export(&cur);
+        // the same schema built from its own text, validated once, is the reference verdict
+        let fresh_ok = Schema::parse_and_validate(cur.to_string(), "fresh.graphql").is_ok();
+        match cur.clone().validate() {
+            Err(e) => {
+                if fresh_ok { ctx.fail("validation-after-adding-field-fails", &desc, e.errors.to_string().lines().next().unwrap_or("")); }
+                else { ctx.stat("place_history_edit_invalid_either_way"); }
+                return;
+            }
+            Ok(v) => {
+                ctx.case("scalars", &[enc(&exported)], &canon(&cur, &v));
+                let after: std::collections::HashSet<String> = keys(&v).into_iter().collect();
+                let mut added: Vec<_> = after.difference(&before).cloned().collect(); added.sort();
+                let removed: Vec<_> = before.difference(&after).cloned().collect();
+                let want: Vec<String> = if before.contains(b) { vec![] } else { vec![b.to_string()] };
+                if added != want || !removed.is_empty() { ctx.fail("restore-not-exact", &desc, &format!("added {added:?}, removed {removed:?}, expected {want:?}")); }
+                if !fresh_ok { ctx.fail("revalidation-accepts-what-a-fresh-build-rejects", &desc, "validate() of the edited schema is Ok, parse_and_validate of its own text is Err"); }
+                ctx.stat(&format!("place_history_place_{place}"));
+                ctx.nontrivial(&desc);
+                cur = v.into_inner();
+            }
+        }
+    }
+}
+
 pub fn run(ctx: &mut Ctx) {
+    {
+        let n = if ctx.thorough { 12_000 } else { 1_500 };
+        for _ in 0..n {
+            // only the listed scalars are referenced: the others are pruned by the first validation
+            let used: Vec<&str> = BUILTINS.iter().copied().filter(|_| ctx.rng.chance(1, 3)).collect();
+            let u = |r: &mut Rng, used: &Vec<&str>| -> String { if used.is_empty() { "Other".to_string() } else { r.pick(used).to_string() } };
+            let (t0, t1, t2, t3) = (u(&mut ctx.rng, &used), u(&mut ctx.rng, &used), u(&mut ctx.rng, &used), u(&mut ctx.rng, &used));
+            let src = format!("type Query implements Named {{ name: {t0} q(a: {t3}): Other }} interface Named {{ name: {t0} }} interface Deep implements Named {{ name: {t0} d: {t1} }} type Other implements Deep & Named {{ name: {t0} d: {t1} }} type Third implements Named {{ name: {t0} }} input In {{ s: {t2} }} directive @dd(a: {t2}) on FIELD | OBJECT");
+            let steps = 1 + ctx.rng.below(4);
+            place_history(ctx, &src, steps);
+        }
+    }
     scripted_value_history(ctx);
     let nv = if ctx.thorough { 30_000 } else { 3_000 };
     for _ in 0..nv { let src = value_schema(&mut ctx.rng); let steps = 1 + ctx.rng.below(4); value_history(ctx, &src, steps); }
